@@ -7,11 +7,13 @@ import (
 	"fmt"
 	"io"
 	"log/slog"
+	"os"
 	"regexp"
 	"runtime"
 	"strings"
 	"sync"
 	"sync/atomic"
+	"syscall"
 	"testing"
 	"time"
 
@@ -86,10 +88,17 @@ func (m *monitor) Write(p []byte) (int, error) {
 		panic("destination: Write panicked (as bytes.Buffer does when it cannot grow)")
 	}
 	if m.failEvery > 0 && nth%m.failEvery == 0 {
-		if nth%2 == 0 {
+		switch nth % 4 {
+		case 0:
 			return 0, errors.New("destination: write failed")
+		case 1:
+			return len(p) / 2, io.ErrShortWrite
+		case 2:
+			// a connection or pipe with a write deadline: an error whose Timeout() is true - an invitation to try again that
+			// the logger must decline
+			return 0, fmt.Errorf("write tcp 10.0.0.1:514: %w", os.ErrDeadlineExceeded)
 		}
-		return len(p) / 2, io.ErrShortWrite
+		return 0, &os.PathError{Op: "write", Path: "/dev/stderr", Err: syscall.EAGAIN} // Temporary() and Timeout() true
 	}
 	return len(p), nil
 }
